@@ -152,3 +152,30 @@ Proof.
   - eapply vm_find_iter_chain; eauto.
   - intros Hne. eapply vm_find_iter_is_reference; eauto. apply bst_init.
 Qed.
+
+(* ---------- termination of vm::run, from the pattern string ---------- *)
+From FR Require Import Terminates.
+Theorem pattern_vm_terminates :
+  forall (re : list nat), valid_text re ->
+  forall (e : expr) (st : pst), parse re = POk (e, st) ->
+  condok true e ->
+  forall (p : prog) (n : nat), regex_new (bs_of st) e = inr (RFancy p n) ->
+  forall cs : list (list nat), valid_chars cs ->
+  forall cx : ctx, c_text cx = concat cs -> (N.of_nat (length (concat cs)) < usize_max)%N ->
+  bnd cs (c_pos cx) ->
+  forall (max_st : nat) (lim : option N),
+  exists n0, forall fuelv, n0 <= fuelv ->
+  match fst (vm_run cx p max_st lim fuelv) with
+  | RMatch _ | RNoMatch | RErrStack | RErrLimit => True
+  | _ => False
+  end.
+Proof.
+  intros re Hv e st Hp Hc p n Hn cs W cx Ht Hl Hb max_st lim.
+  destruct (parse_tree_ok re e st Hp) as (Hr & Hz & Hlz). pose proof (parse_wfe re e st Hv Hp) as Hw.
+  unfold regex_new in Hn. destruct (acheck 0 (wrap e)) eqn:Ea; [discriminate|].
+  destruct (hard (bs_of st) 1 e); [|discriminate].
+  destruct (compile (bs_of st) (wrap e)) as [er|p0] eqn:Ec; [discriminate|]. inversion Hn; subst p0 n. clear Hn.
+  apply (vm_terminates cs W cx Ht Hl Hb (bs_of st) e p Ec).
+  split; [cbn; tauto|]. split; [cbn; tauto|]. split; [exact Ea|]. cbn. split; [exact I|]. split; [|exact I].
+  now apply rok_of.
+Qed.
